@@ -13,6 +13,8 @@ import StorageModel.C10.ValidateProofs
 import StorageModel.C10.Pipeline
 import StorageModel.C10.Session
 import StorageModel.C10.BoltSymbols
+import StorageModel.C10.BoltScan
+import StorageModel.C10.Config
 import StorageModel.C10.Expected
 import StorageModel.Generated.C10Sites
 import StorageModel.Generated.C10Atn
@@ -501,6 +503,53 @@ theorem tree_cursor_no_panic (t : LTree) (extra : Nat) : (tcScript t extra).isPa
 /-- the empty tree (the input of fix 9437023) -/
 example : tcScript .nil 2 = .ok ([], [false, false]) := rfl
 
+
+/-! ### 1i. read APIs against a database file in which structural buckets were never created -/
+
+/-- table obligation: in the regenerated inventory of members selected on possibly-nil buckets (read path of boltz)
+    every site is guarded by a nil test, and the nil-safe getters are the ones the model relies on -/
+theorem bucket_sites_are_guarded : codeGuards = Guards.all := by decide +kernel
+
+/-- ∀ read API (QueryIdsC, QueryWithCursorC with a nil / empty / non-empty provider cursor, IterateIds,
+    IterateValidIds, FindById, GetRelatedEntitiesIdList / Cursor, unique and set index Read), ∀ combinations of
+    existing / never-created structural buckets, ∀ queries (any sort fields, skip, limit), root / child / extended
+    child store: no panic; and when the bucket the API starts from does not exist the answer has no rows -/
+theorem scan_no_panic_missing_buckets (api : Api) (b : Buckets) (q : Q) :
+    (readApi codeGuards api b q).isPanic = false ∧
+    (api.missing b = true → (readApi codeGuards api b q).rows = false) := by
+  rw [bucket_sites_are_guarded]
+  exact ⟨readApi_np api b q, readApi_missing_is_empty api b q⟩
+
+/-- the model follows the code either way: all sites guarded → the full statement; a `Scan` that selects
+    `OpenCursor` on the entities bucket without a nil test → every query panics on a never-written store -/
+theorem scan_follows_code :
+    (∀ api b q, (readApi Guards.all api b q).isPanic = false) ∧
+    (∀ g : Guards, g.scanUnique = false → ∀ (b : Buckets) (q : Q), b.entities = false → q.sort = [] →
+      (readApi g .queryIdsC b q).isPanic = true) :=
+  ⟨readApi_np, fun g hg b q hb hq => unguarded_scan_panics g b q hg hb hq⟩
+
+example : (readApi ⟨false, true, true, true, true, true, true⟩ .queryIdsC ⟨false, false, false, false, false⟩
+    ⟨[], [], none, none, false, false⟩).isPanic = true := by decide +kernel
+
+/-! ### 1j. process-wide configuration -/
+
+/-- table obligation: the debug branch of ast.Parse reads only the parameters of Parse -/
+theorem debug_branch_reads_only_input : Generated.C10.astParseDebugReadsOnlyInput = true := by decide
+
+/-- ∀ configurations, symbol tables, strings: the verdict of ast.Parse (typed query / which error / no panic) does
+    not depend on `EnableQueryDebug`; hence `pipeline_total` holds under every configuration -/
+theorem parse_config_independent (cfg : Config) (st : SymTab) (s : List Char) :
+    parseModelCfg Generated.C10.astParseDebugReadsOnlyInput cfg st s = parseModel st s := by
+  rw [debug_branch_reads_only_input]; exact parseModelCfg_independent cfg st s
+
+/-- the model follows the code either way: a debug branch that reads the result panics, under the debug
+    configuration only, on every filter refused after the syntax check -/
+theorem parse_config_follows_code :
+    (∀ cfg st s, parseModelCfg true cfg st s = parseModel st s) ∧
+    (∀ st s e, parseModel st s = .err e → (e == "syntax") = false →
+      (parseModelCfg false ⟨true⟩ st s).isPanic = true ∧ parseModelCfg false ⟨false⟩ st s = .err e) :=
+  ⟨parseModelCfg_independent, parseModelCfg_leaks⟩
+
 end StorageModel.Properties.C10
 
 #print axioms StorageModel.Properties.C10.class_table_is_expected
@@ -543,3 +592,9 @@ end StorageModel.Properties.C10
 #print axioms StorageModel.Properties.C10.parse_listener_is_per_call
 #print axioms StorageModel.Properties.C10.parse_history_independent
 #print axioms StorageModel.Properties.C10.parse_history_follows_code
+#print axioms StorageModel.Properties.C10.bucket_sites_are_guarded
+#print axioms StorageModel.Properties.C10.scan_no_panic_missing_buckets
+#print axioms StorageModel.Properties.C10.scan_follows_code
+#print axioms StorageModel.Properties.C10.debug_branch_reads_only_input
+#print axioms StorageModel.Properties.C10.parse_config_independent
+#print axioms StorageModel.Properties.C10.parse_config_follows_code
